@@ -62,6 +62,11 @@ def run(ctx):
         ctx.violation("judge", "C17 termination: Highlighter::highlight / HtmlRenderer::render did not finish within the per-case time limit on this input",
                       {"case": "hang", "spec": hang}, fingerprint={"kind": hang[:1], "clause": "termination"})
         return ctx.finish()
+    if rc == 4 and "PANIC " in out:
+        pn = [l for l in out.split("\n") if l.startswith("PANIC ")][-1][6:]
+        ctx.violation("judge", "C17 panic: Highlighter::highlight / HtmlRenderer::render panicked in the real code on this input",
+                      {"case": "panic", "spec": pn}, fingerprint={"kind": pn[:1], "clause": "panic"})
+        return ctx.finish()
     if rc != 0:
         ctx.oblige("run:explorer", False, out[-800:])
         return ctx.finish()
